@@ -109,9 +109,14 @@ def closure_fn(ex, v, hint=None):
         return ('callee', s)
     raise Unsupported('not callable: ' + repr(v)[:80])
 
+class PyFn:
+    """a harness-supplied function value (an environment stub passed where the crate expects a closure)"""
+    def __init__(self, fn): self.fn = fn
+
 def call_fn(ex, f, args, hint=None):
     """call a closure value / fn item with explicit argument values (closure env passed by reference)"""
     fv = dd(f)
+    if isinstance(fv, PyFn): return fv.fn(ex, *args)
     t = closure_fn(ex, fv, hint)
     if isinstance(t, tuple): return ex.call_callee(t[1], list(args))
     fn = ex.fns[t]
